@@ -413,6 +413,9 @@ def run(chk, repo, tier):
     # samples as they are enters the field as a second amplitude factor
     from .extra_rules import mask_support_rule as _mask_support_rule
     _mask_support_rule(chk, repo, 'C02-p')
+    # several tilts on one field: each shift implementation adds its own displacement to the incoming (x, y), axis by axis
+    from .c04 import additive as _additive2
+    _additive2(chk, repo, 'C02-c')
     alpha_rule(chk, repo, 'C02-a')
     contracts(chk, repo, 'C02-b', 'C02-d', 'C02-e', 'C02-i')
     from .c04 import tilt_chain
